@@ -177,6 +177,9 @@ func (r *rw) prepass(f *ast.File) {
 			if p == "time" && timeBad[x.Sel.Name] {
 				r.errf(x.Pos(), "time.%s is not modelled by simrt", x.Sel.Name)
 			}
+			if p == "os" && osUnmodelled[x.Sel.Name] && r.ioSeams() {
+				r.errf(x.Pos(), "os.%s would touch the real file system from simulated code; it is not modelled by simrt", x.Sel.Name)
+			}
 			if p == "os" && x.Sel.Name == "Exit" && r.ioSeams() && !strings.HasSuffix(r.pkgPath, "/cmd") {
 				r.errf(x.Pos(), "os.Exit in library code is not modelled by simrt")
 			}
@@ -216,7 +219,7 @@ func (r *rw) post(c *astutil.Cursor) bool {
 		case p == "os" && r.ioSeams() && (n.Sel.Name == "Stdout" || n.Sel.Name == "Stderr" || n.Sel.Name == "Stdin"):
 			r.stats["stdio"]++
 			c.Replace(call(r.simrt(n.Sel.Name)))
-		case p == "os" && r.ioSeams() && (n.Sel.Name == "Create" || n.Sel.Name == "MkdirAll" || n.Sel.Name == "Open" || n.Sel.Name == "File"):
+		case p == "os" && r.ioSeams() && (n.Sel.Name == "Create" || n.Sel.Name == "MkdirAll" || n.Sel.Name == "Open" || n.Sel.Name == "OpenFile" || n.Sel.Name == "File"):
 			r.stats["fs"]++
 			c.Replace(r.simrt(n.Sel.Name))
 		}
@@ -287,6 +290,9 @@ var atomicOK = func() map[string]bool {
 	}
 	return m
 }()
+
+var osUnmodelled = map[string]bool{"ReadFile": true, "WriteFile": true, "Remove": true, "RemoveAll": true, "Rename": true, "Mkdir": true, "MkdirTemp": true, "CreateTemp": true,
+	"Stat": true, "Lstat": true, "ReadDir": true, "Chdir": true, "Truncate": true, "Symlink": true, "Link": true, "Chmod": true, "NewFile": true, "Pipe": true, "DirFS": true}
 
 var syncOK = map[string]bool{"WaitGroup": true, "Mutex": true, "RWMutex": true, "Once": true}
 var timeBad = map[string]bool{"NewTimer": true, "Tick": true, "AfterFunc": true, "NewTicker": true, "Since": true, "Until": true, "Timer": true, "Ticker": true}
